@@ -47,13 +47,24 @@ def worker(k):
         real = any(l.startswith("VIOLATION") and "-proof.json" not in l for l in viol) or any(l.startswith("DISAGREEMENT") for l in viol)
         caught = [prop] if rc == 1 and real else []
         meta = json.load(open(d + "/meta.json"))
-        if not meta.get("caught_by") and caught:
+        if meta.get("checks") and not meta.get("caught_by") and caught:
             meta["missed_at_first"] = True
+        fz = int(os.environ.get("PAR_FUZZ", "0"))
+        if fz and not caught:
+            # not seen by the quick tier: would the thorough tier's coverage-guided search see it?
+            sh("git -C %s/repo apply %s/patch.diff" % (base, d))
+            try:
+                rcf, outf = sh("python3 tools/fuzz_diff.py %s %d" % (prop, fz), cwd=base + "/verif", env=env, timeout=fz + 2400)
+            except subprocess.TimeoutExpired:
+                rcf, outf = -9, "TIMEOUT"
+            finally:
+                sh("git -C %s/repo checkout -- ." % base)
+            meta["fuzz"] = {"seconds": fz, "caught": rcf == 1, "tail": outf[-400:]}
         meta["checks"] = {prop: {"exit": rc, "lines": viol[:6]}}
         meta["caught_by"] = caught
         meta["rechecked_at"] = {"verif_commit": head, "time": time.strftime("%Y-%m-%d %H:%M")}
         json.dump(meta, open(d + "/meta.json", "w"), indent=1)
-        res.append((name, "caught" if caught else "MISSED exit=%s %s" % (rc, out[-300:].replace("\n", " | "))))
+        res.append((name, "caught" if caught else "MISSED exit=%s fuzz=%s %s" % (rc, meta.get("fuzz", {}).get("caught"), out[-200:].replace("\n", " | "))))
         print(name, res[-1][1][:160], flush=True)
     sh("git -C /repo worktree remove --force %s/repo; git -C /verif worktree remove --force %s/verif; rm -rf %s" % (base, base, base))
     return res
